@@ -1,9 +1,20 @@
 //! C05: `TTYEncoder::encode` for every command × colour depth × keyboard capability.
-//! Correspondence: `c05 encode …` — the Lean model of the encoder must produce the same bytes.
-//! Oracle: `c05 check …` — the verified Lean reference VT/xterm interpreter must read the
-//! implementation's bytes as exactly the specified meaning of the command (independent of spelling).
-use serde_json::json;
+//! Single commands (fresh encoder each):
+//!   correspondence `c05 encode …` — the Lean model of the encoder must produce the same bytes;
+//!   oracle `c05 check …` — the verified Lean reference VT/xterm interpreter must read the
+//!   implementation's bytes as exactly the specified meaning of the command (independent of spelling).
+//! Streams (ONE `TTYEncoder` reused for all commands of a stream, some calls writing to a writer that
+//! fails after k bytes):
+//!   correspondence `c05 stream …` — the stateful Lean model (chunk buffer kept across calls, cleared
+//!   where the code clears it) must produce the same bytes and the same Ok/Err per call;
+//!   oracle `c05 scheck …` — the interpreter must read the concatenated output of the successful
+//!   calls as exactly the concatenation of the commands' meanings (theorem C05_stream).
+//! Rust-side oracles: no panic / no error on an infallible writer; in 256-colour mode every selected
+//! palette index lies in 16..=255 (cube and grey ramp, C20).
+//! `VERIF_REPLAY`: only the recorded command / stream is re-run, through the real encoder and both lines.
+use serde_json::{Value, json};
 use std::collections::HashSet;
+use std::io::Write;
 use surf_n_term::{
     Color as _, Face, FaceAttrs, FaceModify, Position, RGBA, UnderlineStyle,
     encoder::{ColorDepth, Encoder, TTYEncoder},
@@ -32,8 +43,94 @@ fn enc(caps: TerminalCaps, cmd: TerminalCommand) -> Result<Vec<u8>, ()> {
     .and_then(|r| r.map_err(|_| ()))
 }
 
+/// An `io::Write` that accepts `room` bytes and then fails (`None`: never fails).
+struct Limited {
+    out: Vec<u8>,
+    room: Option<usize>,
+}
+impl Write for Limited {
+    fn write(&mut self, buf: &[u8]) -> std::io::Result<usize> {
+        match self.room {
+            None => {
+                self.out.extend_from_slice(buf);
+                Ok(buf.len())
+            }
+            Some(0) if !buf.is_empty() => Err(std::io::Error::other("writer is full")),
+            Some(k) => {
+                let n = k.min(buf.len());
+                self.out.extend_from_slice(&buf[..n]);
+                self.room = Some(k - n);
+                Ok(n)
+            }
+        }
+    }
+    fn flush(&mut self) -> std::io::Result<()> {
+        Ok(())
+    }
+}
+
+/// Parameters of every SGR sequence (`CSI … m`) in `bytes`: per sequence the `;`-separated
+/// parameters, each with its `:`-separated sub-parameters (`None` = empty / not a number).
+/// Tolerant of spelling: it does not assume any order or form of the parameters.
+fn sgr_params(bytes: &[u8]) -> Vec<Vec<Vec<Option<u64>>>> {
+    let mut res = Vec::new();
+    let mut i = 0;
+    while i + 1 < bytes.len() {
+        if bytes[i] == 0x1b && bytes[i + 1] == b'[' {
+            let mut j = i + 2;
+            while j < bytes.len() && (0x30..0x40).contains(&bytes[j]) {
+                j += 1;
+            }
+            if j < bytes.len() && bytes[j] == b'm' {
+                let body = &bytes[i + 2..j];
+                res.push(
+                    body.split(|b| *b == b';')
+                        .map(|p| {
+                            p.split(|b| *b == b':')
+                                .map(|d| std::str::from_utf8(d).ok().and_then(|d| d.parse::<u64>().ok()))
+                                .collect()
+                        })
+                        .collect(),
+                );
+            }
+            i = j.max(i + 2);
+        } else {
+            i += 1;
+        }
+    }
+    res
+}
+
+/// Indexed-colour selections `38|48|58 ; 5 ; N` (semicolon form) and `38|48|58 : 5 : N` (colon form)
+/// in one SGR parameter list: (role code, N).
+fn indexed_selections(params: &[Vec<Option<u64>>]) -> Vec<(u64, u64)> {
+    let mut res = Vec::new();
+    let mut i = 0;
+    while i < params.len() {
+        let p = &params[i];
+        let role = p.first().copied().flatten();
+        if let Some(role) = role.filter(|r| [38, 48, 58].contains(r)) {
+            if p.len() >= 3 && p[1] == Some(5) {
+                if let Some(n) = p[2] {
+                    res.push((role, n));
+                }
+            } else if p.len() == 1 && i + 2 < params.len() && params[i + 1] == vec![Some(5)] {
+                if let Some(Some(n)) = params[i + 2].first() {
+                    res.push((role, *n));
+                }
+                i += 2;
+            } else if p.len() == 1 && i + 4 < params.len() && params[i + 1] == vec![Some(2)] {
+                i += 4;
+            }
+        }
+        i += 1;
+    }
+    res
+}
+
 /// palette index / grey level the implementation selects for a colour (C20 decides whether they
-/// are the right ones; here they are inputs of the model)
+/// are the right ones; here they are inputs of the model). Read from a single-colour `Face` encode
+/// by parsing the SGR parameter list, whatever its spelling.
 fn reductions(c: RGBA) -> (usize, usize) {
     let face = Face::new(Some(c), None, FaceAttrs::EMPTY);
     let caps8 = TerminalCaps { depth: ColorDepth::EightBit, glyphs: false, kitty_keyboard: false };
@@ -41,22 +138,22 @@ fn reductions(c: RGBA) -> (usize, usize) {
     let pal = enc(caps8, TerminalCommand::Face(face))
         .ok()
         .and_then(|b| {
-            let s = String::from_utf8(b).ok()?;
-            let s = s.strip_prefix("\x1b[0;38;5;")?.strip_suffix('m')?.to_string();
-            s.parse::<usize>().ok()
+            let sgr = sgr_params(&b);
+            let sel: Vec<(u64, u64)> = sgr.iter().flat_map(|p| indexed_selections(p)).collect();
+            sel.iter().find(|(role, _)| *role == 38).map(|(_, n)| *n as usize)
         })
         .unwrap_or(999);
     let lvl = enc(capsg, TerminalCommand::Face(face))
         .ok()
         .and_then(|b| {
-            let s = String::from_utf8(b).ok()?;
-            match s.as_str() {
-                "\x1b[0;30m" => Some(0),
-                "\x1b[0;90m" => Some(1),
-                "\x1b[0;37m" => Some(2),
-                "\x1b[0;97m" => Some(3),
+            let sgr = sgr_params(&b);
+            sgr.iter().flatten().find_map(|p| match p.as_slice() {
+                [Some(30)] => Some(0),
+                [Some(90)] => Some(1),
+                [Some(37)] => Some(2),
+                [Some(97)] => Some(3),
                 _ => None,
-            }
+            })
         })
         .unwrap_or(9);
     (pal, lvl)
@@ -175,11 +272,26 @@ fn cmd_tok(cmd: &TerminalCommand) -> Option<String> {
 
 fn rnd_color(rng: &mut Rng) -> RGBA {
     let edge = [0u8, 1, 8, 47, 95, 128, 135, 254, 255];
-    let mut ch = |rng: &mut Rng| if rng.chance(1, 3) { *rng.pick(&edge) } else { rng.below(256) as u8 };
-    RGBA::new(ch(rng), ch(rng), ch(rng), 255)
+    let ch = |rng: &mut Rng| if rng.chance(1, 3) { *rng.pick(&edge) } else { rng.below(256) as u8 };
+    // alpha: mostly opaque; translucent and transparent colours are legal `Face` colours (the
+    // encoder discards alpha in true colour and reduces the premultiplied colour otherwise)
+    let a = match rng.below(5) {
+        0 => *rng.pick(&[0u8, 1, 127, 128, 254]),
+        1 => rng.below(256) as u8,
+        _ => 255,
+    };
+    RGBA::new(ch(rng), ch(rng), ch(rng), a)
 }
 fn opt_color(rng: &mut Rng) -> Option<RGBA> {
     if rng.chance(1, 3) { None } else { Some(rnd_color(rng)) }
+}
+/// colour of an OSC colour command: opaque (a translucent colour prints as `#rrggbbaa`, which is
+/// outside the domain `Valid` of the property theorem: xterm's colour syntax has no alpha)
+fn opt_opaque(rng: &mut Rng) -> Option<RGBA> {
+    opt_color(rng).map(|c| {
+        let [r, g, b, _] = c.to_rgba();
+        RGBA::new(r, g, b, 255)
+    })
 }
 fn rnd_usize(rng: &mut Rng) -> usize {
     match rng.below(6) {
@@ -201,15 +313,6 @@ fn rnd_i32(rng: &mut Rng) -> i32 {
         _ => rng.next() as i32,
     }
 }
-fn rnd_text(rng: &mut Rng, ascii_only: bool) -> String {
-    let n = rng.below(12);
-    let pool: Vec<char> = if ascii_only {
-        "abcXYZ019_-+.".chars().collect()
-    } else {
-        "ab Z9;:[]\\m~é€𝄞漢\u{a0}\u{ff}".chars().collect()
-    };
-    (0..n).map(|_| *rng.pick(&pool)).collect()
-}
 fn rnd_char(rng: &mut Rng) -> char {
     loop {
         let cp = match rng.below(6) {
@@ -226,6 +329,29 @@ fn rnd_char(rng: &mut Rng) -> char {
         if let Some(c) = char::from_u32(cp) {
             return c;
         }
+    }
+}
+/// title: a small pool of characters that matter to a parser (`;`, `:`, `[`, `\`, `m`, NBSP, ÿ …) or
+/// any printable scalar values, up to 200 characters
+fn rnd_title(rng: &mut Rng) -> String {
+    let pool: Vec<char> = "ab Z9;:[]\\m~é€𝄞漢\u{a0}\u{ff}".chars().collect();
+    match rng.below(4) {
+        0 => (0..rng.below(12)).map(|_| *rng.pick(&pool)).collect(),
+        1 => (0..rng.below(12)).map(|_| rnd_char(rng)).collect(),
+        2 => (0..rng.below(201)).map(|_| rnd_char(rng)).collect(),
+        _ => (0..rng.below(201)).map(|_| if rng.chance(1, 4) { *rng.pick(&pool) } else { rng.range(0x20, 0x7e) as u8 as char }).collect(),
+    }
+}
+/// capability name: non-empty printable ASCII (0x20..=0x7e; bytes below 0x10, where `{:x}` prints a
+/// single digit, are control characters and outside the domain)
+fn rnd_name(rng: &mut Rng) -> String {
+    let pool: Vec<char> = "abcXYZ019_-+.".chars().collect();
+    let top = if rng.chance(1, 8) { 40 } else { 6 };
+    let n = 1 + rng.below(top);
+    if rng.chance(1, 2) {
+        (0..n).map(|_| *rng.pick(&pool)).collect()
+    } else {
+        (0..n).map(|_| rng.range(0x20, 0x7e) as u8 as char).collect()
     }
 }
 
@@ -282,18 +408,21 @@ fn rnd_cmd(rng: &mut Rng) -> TerminalCommand {
         16 => Scroll(rnd_i32(rng)),
         17 => ScrollRegion { start: rnd_usize(rng), end: rnd_usize(rng) },
         18 => Reset,
-        19 => Termcap((0..rng.below(4)).map(|_| rnd_text(rng, true)).filter(|s| !s.is_empty()).collect()),
+        19 => Termcap((0..rng.below(4)).map(|_| rnd_name(rng)).collect()),
         20 | 21 => Color {
-            name: match rng.below(3) {
+            name: match rng.below(4) {
                 0 => TerminalColor::Background,
                 1 => TerminalColor::Foreground,
-                _ => TerminalColor::Palette(rng.below(300) as usize),
+                2 => TerminalColor::Palette(rng.below(300) as usize),
+                _ => TerminalColor::Palette(rnd_usize(rng)),
             },
-            color: opt_color(rng),
+            // one in eight translucent: outside the domain of the property (no oracle line), but the
+            // model's `#rrggbbaa` branch stays tied to the code by the correspondence line
+            color: if rng.chance(1, 8) { opt_color(rng) } else { opt_opaque(rng) },
         },
-        22 => Title(rnd_text(rng, false)),
+        22 => Title(rnd_title(rng)),
         23 => DeviceAttrs,
-        24 => KeyboardLevel(rng.below(40) as usize),
+        24 => KeyboardLevel(if rng.chance(1, 2) { rng.below(40) as usize } else { rnd_usize(rng) }),
         _ => DecModeSet { enable: rng.chance(1, 2), mode: DecMode::AltScreen },
     }
 }
@@ -310,8 +439,10 @@ fn corner_cmds() -> Vec<TerminalCommand> {
         CursorMove { row: 0, col: 0 },
         CursorMove { row: -1, col: 1 },
         CursorTo(Position::new(usize::MAX, usize::MAX)),
+        CursorTo(Position::new(usize::MAX - 1, usize::MAX - 1)),
         CursorTo(Position::new(0, 0)),
         ScrollRegion { start: usize::MAX - 1, end: usize::MAX },
+        ScrollRegion { start: usize::MAX - 2, end: usize::MAX - 1 },
         ScrollRegion { start: 5, end: 5 },
         ScrollRegion { start: 6, end: 5 },
         ScrollRegion { start: 0, end: 1 },
@@ -319,13 +450,18 @@ fn corner_cmds() -> Vec<TerminalCommand> {
         EraseChars(usize::MAX),
         Termcap(vec![]),
         Termcap(vec!["TN".into(), "Co".into(), "RGB".into()]),
+        Termcap(vec![" ~".into()]),
         Title(String::new()),
         Title("x;y".into()),
         FaceModify(surf_n_term::FaceModify::default()),
         FaceModify(surf_n_term::FaceModify { bold: Some(false), ..Default::default() }),
         FaceModify(surf_n_term::FaceModify { underline: Some(UnderlineStyle::None), ..Default::default() }),
+        FaceModify(surf_n_term::FaceModify { underline_color: Some(RGBA::new(1, 2, 3, 255)), ..Default::default() }),
         Face(surf_n_term::Face::default()),
+        Face(surf_n_term::Face::new(Some(RGBA::new(200, 100, 50, 0)), Some(RGBA::new(200, 100, 50, 128)), FaceAttrs::EMPTY)),
         KeyboardLevel(0),
+        KeyboardLevel(usize::MAX),
+        Color { name: TerminalColor::Palette(usize::MAX), color: None },
     ];
     for mode in MODES {
         for enable in [false, true] {
@@ -340,68 +476,447 @@ fn corner_cmds() -> Vec<TerminalCommand> {
     v
 }
 
-fn main() {
-    let cfg = Cfg::from_env();
-    let mut out: Out = cfg.out();
-    verif_harness::silence_panics();
-    let mut rng = Rng::new(cfg.seed);
-    let n = if cfg.thorough { 300_000 } else { 12_000 };
-    let mut seen = HashSet::new();
-    let depths = [(ColorDepth::TrueColor, 'T'), (ColorDepth::EightBit, 'E'), (ColorDepth::Gray, 'G')];
+/// domain of the property theorems (`Valid`): at least one capability name (an empty XTGETTCAP
+/// request is read by xterm as a request for the empty name); opaque colours in OSC colour commands
+fn in_domain(cmd: &TerminalCommand) -> bool {
+    match cmd {
+        TerminalCommand::Termcap(names) => !names.is_empty(),
+        TerminalCommand::Color { color: Some(c), .. } => c.to_rgba()[3] == 255,
+        _ => true,
+    }
+}
 
-    let mut one = |out: &mut Out, cmd: TerminalCommand| {
-        let Some(tok) = cmd_tok(&cmd) else { return };
-        for (depth, dc) in depths {
-            for kitty in [false, true] {
-                let caps = TerminalCaps { depth, glyphs: false, kitty_keyboard: kitty };
-                let caps_tok = format!("{dc}{}", if kitty { 'k' } else { 'n' });
-                let key = format!("{caps_tok} {tok}");
-                let fresh = seen.insert(key.clone());
-                let kind = tok.split(' ').next().unwrap_or("").to_string();
-                out.case(&key, true);
-                if !fresh {
-                    continue;
+/// Rust-side oracle on the implementation's bytes: in 256-colour mode every indexed colour selection
+/// names an entry of the colour cube or the grey ramp (16..=255); C20 decides which one.
+fn palette_range_failures(depth: ColorDepth, bytes: &[u8]) -> Option<u64> {
+    if depth != ColorDepth::EightBit {
+        return None;
+    }
+    sgr_params(bytes)
+        .iter()
+        .flat_map(|p| indexed_selections(p))
+        .map(|(_, n)| n)
+        .find(|n| !(16..=255).contains(n))
+}
+
+// ---------------------------------------------------------------------------------------------
+// replay: request text -> command
+
+fn unhex(s: &str) -> Option<Vec<u8>> {
+    if s == "-" {
+        return Some(vec![]);
+    }
+    if s.len() % 2 != 0 {
+        return None;
+    }
+    (0..s.len() / 2).map(|i| u8::from_str_radix(s.get(2 * i..2 * i + 2)?, 16).ok()).collect()
+}
+fn parse_color(s: &str) -> Option<Option<RGBA>> {
+    if s == "-" {
+        return Some(None);
+    }
+    let v: Vec<u8> = s.split(',').take(4).map(|x| x.parse::<u8>().ok()).collect::<Option<_>>()?;
+    if v.len() != 4 {
+        return None;
+    }
+    Some(Some(RGBA::new(v[0], v[1], v[2], v[3])))
+}
+fn parse_tri(s: &str) -> Option<Option<bool>> {
+    match s {
+        "-" => Some(None),
+        "1" => Some(Some(true)),
+        "0" => Some(Some(false)),
+        _ => None,
+    }
+}
+fn parse_bit(s: &str) -> Option<bool> {
+    parse_tri(s)?
+}
+fn parse_mode(s: &str) -> Option<DecMode> {
+    let n: usize = s.parse().ok()?;
+    MODES.iter().copied().find(|m| *m as usize == n)
+}
+/// inverse of `cmd_tok`
+fn parse_cmd(t: &[&str]) -> Option<TerminalCommand> {
+    use TerminalCommand::*;
+    Some(match t {
+        ["char", cp] => Char(char::from_u32(cp.parse().ok()?)?),
+        ["face", fg, bg, under, bold, italic, blink, reverse, strike] => {
+            let mut attrs: FaceAttrs = (*UNDERS.get(under.parse::<usize>().ok()?)?).into();
+            for (on, flag) in [
+                (bold, FaceAttrs::BOLD),
+                (italic, FaceAttrs::ITALIC),
+                (blink, FaceAttrs::BLINK),
+                (reverse, FaceAttrs::REVERSE),
+                (strike, FaceAttrs::STRIKE),
+            ] {
+                if parse_bit(on)? {
+                    attrs = attrs.insert(flag);
                 }
-                out.hist(&kind);
-                match enc(caps, cmd.clone()) {
-                    Err(()) => {
-                        out.corr(&format!("c05 encode {caps_tok} {tok}"), "panic-or-error");
+            }
+            Face(surf_n_term::Face::new(parse_color(fg)?, parse_color(bg)?, attrs))
+        }
+        ["faceModify", reset, fg, bg, ul, ulc, bold, italic, blink, strike] => FaceModify(surf_n_term::FaceModify {
+            reset: parse_bit(reset)?,
+            fg: parse_color(fg)?,
+            bg: parse_color(bg)?,
+            underline: if *ul == "-" { None } else { Some(*UNDERS.get(ul.parse::<usize>().ok()?)?) },
+            underline_color: parse_color(ulc)?,
+            bold: parse_tri(bold)?,
+            italic: parse_tri(italic)?,
+            blink: parse_tri(blink)?,
+            strike: parse_tri(strike)?,
+        }),
+        ["faceGet"] => FaceGet,
+        ["decModeSet", e, m] => DecModeSet { enable: parse_bit(e)?, mode: parse_mode(m)? },
+        ["decModeGet", m] => DecModeGet(parse_mode(m)?),
+        ["cursorGet"] => CursorGet,
+        ["cursorTo", r, c] => CursorTo(Position::new(r.parse().ok()?, c.parse().ok()?)),
+        ["cursorMove", r, c] => CursorMove { row: r.parse().ok()?, col: c.parse().ok()? },
+        ["cursorSave"] => CursorSave,
+        ["cursorRestore"] => CursorRestore,
+        ["eraseLineLeft"] => EraseLineLeft,
+        ["eraseLineRight"] => EraseLineRight,
+        ["eraseLine"] => EraseLine,
+        ["eraseScreen"] => EraseScreen,
+        ["eraseChars", n] => EraseChars(n.parse().ok()?),
+        ["scroll", n] => Scroll(n.parse().ok()?),
+        ["scrollRegion", s, e] => ScrollRegion { start: s.parse().ok()?, end: e.parse().ok()? },
+        ["reset"] => Reset,
+        ["termcap", names] => Termcap(if *names == "-" {
+            vec![]
+        } else {
+            names.split(',').map(|n| String::from_utf8(unhex(n)?).ok()).collect::<Option<Vec<_>>>()?
+        }),
+        ["color", name, c] => Color {
+            name: match *name {
+                "bg" => TerminalColor::Background,
+                "fg" => TerminalColor::Foreground,
+                i => TerminalColor::Palette(i.parse().ok()?),
+            },
+            color: parse_color(c)?,
+        },
+        ["title", t] => Title(String::from_utf8(unhex(t)?).ok()?),
+        ["deviceAttrs"] => DeviceAttrs,
+        ["keyboardLevel", n] => KeyboardLevel(n.parse().ok()?),
+        _ => return None,
+    })
+}
+fn parse_caps(s: &str) -> Option<(TerminalCaps, String)> {
+    let mut it = s.chars();
+    let depth = match it.next()? {
+        'T' => ColorDepth::TrueColor,
+        'E' => ColorDepth::EightBit,
+        'G' => ColorDepth::Gray,
+        _ => return None,
+    };
+    let kitty = match it.next()? {
+        'k' => true,
+        'n' => false,
+        _ => return None,
+    };
+    Some((TerminalCaps { depth, glyphs: false, kitty_keyboard: kitty }, s.to_string()))
+}
+/// items `[@k] cmd…` separated by `|`
+fn parse_items(t: &[&str]) -> Option<Vec<(Option<usize>, TerminalCommand)>> {
+    t.split(|x| *x == "|")
+        .map(|item| match item.first() {
+            Some(k) if k.starts_with('@') => Some((Some(k[1..].parse().ok()?), parse_cmd(&item[1..])?)),
+            _ => Some((None, parse_cmd(item)?)),
+        })
+        .collect()
+}
+/// the recorded input of a replay file: capability token and the items of a stream (a single command
+/// is a stream of one)
+fn replay_input(r: &Value) -> Option<(String, Vec<(Option<usize>, TerminalCommand)>)> {
+    let mut inputs: Vec<Value> = vec![r["failure"]["input"].clone()];
+    for b in r["broken"].as_array().cloned().unwrap_or_default() {
+        for f in b["first"].as_array().cloned().unwrap_or_default() {
+            inputs.push(f);
+        }
+    }
+    for input in inputs {
+        if let Some(req) = input["request"].as_str() {
+            let t: Vec<&str> = req.split(' ').filter(|x| !x.is_empty()).collect();
+            let parsed = match t.as_slice() {
+                ["c05", "check", caps, _bytes, cmd @ ..] => parse_items(cmd).map(|i| (caps.to_string(), i)),
+                ["c05", "encode", caps, cmd @ ..] => parse_items(cmd).map(|i| (caps.to_string(), i)),
+                ["c05", "scheck", caps, _bytes, items @ ..] => {
+                    // the full stream (with the calls whose writer failed) follows `##`
+                    let full = match items.iter().position(|x| *x == "##") {
+                        Some(p) => &items[p + 1..],
+                        None => items,
+                    };
+                    parse_items(full).map(|i| (caps.to_string(), i))
+                }
+                ["c05", "stream", caps, items @ ..] => parse_items(items).map(|i| (caps.to_string(), i)),
+                _ => None,
+            };
+            if parsed.is_some() {
+                return parsed;
+            }
+        }
+        if let (Some(caps), Some(cmd)) = (input["caps"].as_str(), input["cmd"].as_str()) {
+            let t: Vec<&str> = cmd.split(' ').collect();
+            if let Some(i) = parse_items(&t) {
+                return Some((caps.to_string(), i));
+            }
+        }
+        if let (Some(caps), Some(stream)) = (input["caps"].as_str(), input["stream"].as_str()) {
+            let t: Vec<&str> = stream.split(' ').collect();
+            if let Some(i) = parse_items(&t) {
+                return Some((caps.to_string(), i));
+            }
+        }
+    }
+    None
+}
+
+// ---------------------------------------------------------------------------------------------
+
+struct Run {
+    out: Out,
+    seen: HashSet<String>,
+}
+
+impl Run {
+    /// one command on a fresh encoder under one capability set
+    fn single(&mut self, caps: TerminalCaps, caps_tok: &str, cmd: &TerminalCommand, tok: &str) {
+        let out = &mut self.out;
+        let key = format!("{caps_tok} {tok}");
+        let fresh = self.seen.insert(key.clone());
+        out.case(&key, true);
+        if !fresh {
+            return;
+        }
+        out.hist(tok.split(' ').next().unwrap_or(""));
+        match enc(caps.clone(), cmd.clone()) {
+            Err(()) => {
+                out.corr(&format!("c05 encode {caps_tok} {tok}"), "panic-or-error");
+                out.fail(
+                    "encode panicked or returned an error",
+                    json!({"caps": caps_tok, "cmd": tok}),
+                    json!("bytes"),
+                    json!("panic"),
+                );
+            }
+            Ok(bytes) => {
+                let hx = hex(&bytes);
+                out.corr(&format!("c05 encode {caps_tok} {tok}"), &hx);
+                if in_domain(cmd) {
+                    out.oracle(&format!("c05 check {caps_tok} {hx} {tok}"), "ok");
+                }
+                if let Some(n) = palette_range_failures(caps.depth, &bytes) {
+                    out.fail(
+                        "256-colour mode selects a palette index outside 16..=255",
+                        json!({"caps": caps_tok, "cmd": tok}),
+                        json!("16..=255"),
+                        json!(n),
+                    );
+                }
+                if out.evaluations % 4001 == 1 {
+                    out.sample(json!({"caps": caps_tok, "cmd": tok, "bytes": String::from_utf8_lossy(&bytes)}));
+                }
+            }
+        }
+    }
+
+    /// a stream of commands through ONE encoder; item `(room, cmd)` writes to a writer that accepts
+    /// `room` bytes (`None`: any number)
+    fn stream(&mut self, caps: TerminalCaps, caps_tok: &str, items: &[(Option<usize>, TerminalCommand)]) {
+        let out = &mut self.out;
+        let toks: Vec<String> = items
+            .iter()
+            .filter_map(|(room, cmd)| {
+                let t = cmd_tok(cmd)?;
+                Some(match room {
+                    Some(k) => format!("@{k} {t}"),
+                    None => t,
+                })
+            })
+            .collect();
+        if toks.len() != items.len() || items.is_empty() {
+            return;
+        }
+        let text = toks.join(" | ");
+        let key = format!("stream {caps_tok} {text}");
+        out.case(&key, true);
+        if !self.seen.insert(key) {
+            return;
+        }
+        out.hist("stream");
+        out.hist(&format!("stream-len-{}", if items.len() <= 2 { "1-2" } else if items.len() <= 6 { "3-6" } else { "7+" }));
+        let mut encoder = TTYEncoder::new(caps.clone());
+        let mut answer: Vec<String> = Vec::new();
+        let mut good_bytes: Vec<u8> = Vec::new();
+        let mut good_cmds: Vec<String> = Vec::new();
+        let mut all_in_domain = true;
+        for (i, (room, cmd)) in items.iter().enumerate() {
+            let mut w = Limited { out: Vec::new(), room: *room };
+            let res = guarded(|| encoder.encode(&mut w, cmd.clone()));
+            match res {
+                Err(()) => {
+                    out.corr(&format!("c05 stream {caps_tok} {text}"), "panic");
+                    out.fail(
+                        "encode panicked in a stream of commands through one encoder",
+                        json!({"caps": caps_tok, "stream": text, "index": i}),
+                        json!("bytes"),
+                        json!("panic"),
+                    );
+                    return;
+                }
+                Ok(r) => {
+                    let ok = r.is_ok();
+                    if !ok && room.is_none() {
                         out.fail(
-                            "encode panicked or returned an error",
-                            json!({"caps": caps_tok, "cmd": tok}),
-                            json!("bytes"),
-                            json!("panic"),
+                            "encode returned an error on an infallible writer",
+                            json!({"caps": caps_tok, "stream": text, "index": i}),
+                            json!("Ok"),
+                            json!("Err"),
                         );
                     }
-                    Ok(bytes) => {
-                        let hx = hex(&bytes);
-                        out.corr(&format!("c05 encode {caps_tok} {tok}"), &hx);
-                        // domain of the property: at least one capability name (an empty
-                        // XTGETTCAP request is read by xterm as a request for the empty name)
-                        let in_domain = !matches!(&cmd, TerminalCommand::Termcap(names) if names.is_empty());
-                        if in_domain {
-                            out.oracle(&format!("c05 check {caps_tok} {hx} {tok}"), "ok");
-                        }
-                        if out.evaluations % 4001 == 1 {
-                            out.sample(json!({"caps": caps_tok, "cmd": tok, "bytes": String::from_utf8_lossy(&bytes)}));
-                        }
+                    answer.push(format!("{}{}", hex(&w.out), if ok { "" } else { "!" }));
+                    if ok {
+                        good_bytes.extend_from_slice(&w.out);
+                        good_cmds.push(cmd_tok(cmd).unwrap_or_default());
+                        all_in_domain &= in_domain(cmd);
+                    } else {
+                        out.hist("stream-failed-write");
                     }
                 }
             }
         }
-    };
+        out.corr(&format!("c05 stream {caps_tok} {text}"), &answer.join(" "));
+        if all_in_domain && !good_cmds.is_empty() {
+            // after `##` (ignored by the Lean side): the whole stream incl. failed calls, for replay
+            out.oracle(&format!("c05 scheck {caps_tok} {} {} ## {text}", hex(&good_bytes), good_cmds.join(" | ")), "ok");
+        }
+        if let Some(n) = palette_range_failures(caps.depth, &good_bytes) {
+            out.fail(
+                "256-colour mode selects a palette index outside 16..=255",
+                json!({"caps": caps_tok, "stream": text}),
+                json!("16..=255"),
+                json!(n),
+            );
+        }
+        if out.evaluations % 1501 == 1 {
+            out.sample(json!({"caps": caps_tok, "stream": text, "bytes": String::from_utf8_lossy(&good_bytes)}));
+        }
+    }
+}
+
+/// commands of a stream: faces and face modifications (the arms that use the encoder's chunk buffer)
+/// half of the time, anything else otherwise; a command is sometimes repeated verbatim (an encoder that
+/// remembers the last face must still emit it again); some calls get a writer that fails early
+fn rnd_stream(rng: &mut Rng, max_len: u64) -> Vec<(Option<usize>, TerminalCommand)> {
+    let n = 1 + rng.below(max_len);
+    let mut items: Vec<(Option<usize>, TerminalCommand)> = Vec::new();
+    for _ in 0..n {
+        let cmd = if !items.is_empty() && rng.chance(1, 5) {
+            items[rng.below(items.len() as u64) as usize].1.clone()
+        } else if rng.chance(1, 2) {
+            if rng.chance(1, 2) { TerminalCommand::Face(rnd_face(rng)) } else { TerminalCommand::FaceModify(rnd_modify(rng)) }
+        } else {
+            loop {
+                let c = rnd_cmd(rng);
+                if in_domain(&c) {
+                    break c;
+                }
+            }
+        };
+        let top = if rng.chance(1, 2) { 8 } else { 64 };
+        let room = if rng.chance(1, 6) { Some(rng.below(top) as usize) } else { None };
+        items.push((room, cmd));
+    }
+    items
+}
+
+fn corner_streams() -> Vec<Vec<(Option<usize>, TerminalCommand)>> {
+    use TerminalCommand::*;
+    let red = RGBA::new(255, 0, 0, 255);
+    let f1 = surf_n_term::Face::new(Some(red), Some(RGBA::new(0, 0, 255, 255)), FaceAttrs::BOLD | FaceAttrs::ITALIC);
+    let f2 = surf_n_term::Face::new(None, None, UnderlineStyle::Curly.into());
+    let m1 = surf_n_term::FaceModify { bold: Some(false), fg: Some(red), ..Default::default() };
+    let m0 = surf_n_term::FaceModify::default();
+    let mut v = vec![
+        vec![(None, Face(f1)), (None, Face(f1))],
+        vec![(None, Face(f1)), (None, Face(f2)), (None, Face(f1))],
+        vec![(None, Face(f1)), (None, FaceModify(m0)), (None, FaceModify(m1)), (None, FaceModify(m0))],
+        vec![(None, FaceModify(m1)), (None, FaceModify(m1)), (None, Face(f2))],
+        vec![(None, Face(f1)), (None, CursorTo(Position::new(3, 4))), (None, Char('x')), (None, Face(f1))],
+    ];
+    // a writer that fails after k bytes of the first Face, for every k; the next commands must be whole
+    for k in 0..40 {
+        v.push(vec![(Some(k), Face(f1)), (None, Face(f2)), (None, FaceModify(m1)), (None, FaceModify(m0))]);
+        v.push(vec![(Some(k), FaceModify(m1)), (None, FaceModify(m0)), (None, FaceModify(m1))]);
+    }
+    v
+}
+
+fn main() {
+    let cfg = Cfg::from_env();
+    verif_harness::silence_panics();
+    let mut rng = Rng::new(cfg.seed);
+    let mut run = Run { out: cfg.out(), seen: HashSet::new() };
+    let depths = [(ColorDepth::TrueColor, 'T'), (ColorDepth::EightBit, 'E'), (ColorDepth::Gray, 'G')];
+    let mut all_caps: Vec<(TerminalCaps, String)> = Vec::new();
+    for (depth, dc) in depths {
+        for kitty in [false, true] {
+            all_caps.push((
+                TerminalCaps { depth, glyphs: false, kitty_keyboard: kitty },
+                format!("{dc}{}", if kitty { 'k' } else { 'n' }),
+            ));
+        }
+    }
+    let rule = "white-box corner commands first, then random commands of every kind (extreme usize / i32 parameters, every DEC mode, every underline style x attribute combination, colours with channel values at cube/grey boundaries and any alpha, printable scalar values from every UTF-8 length class, titles of up to 200 printable characters incl. `;` `:` `[` `\\`, capability names of any printable ASCII, keyboard levels and palette indices up to usize::MAX), each on a fresh encoder under 3 colour depths x kitty keyboard on/off; then streams of 1..12 (thorough: 1..24) commands through ONE reused encoder per stream (half of them Face/FaceModify, repeated commands, one call in six to a writer failing after k bytes); distinct by (caps, command text) / (caps, stream text)";
 
     if let Some(r) = &cfg.replay {
-        // replay file: failure.input.request holds the `c05 check …` request; re-run is done by the
-        // Lean side on the recorded bytes, and the encoder is re-run on nothing here
-        out.sample(json!({"replay": r["failure"]["input"]}));
+        // re-run exactly the recorded command or stream: real encoder, correspondence line, oracle line
+        match replay_input(r) {
+            Some((caps_tok, items)) => {
+                if let Some((caps, caps_tok)) = parse_caps(&caps_tok) {
+                    run.out.sample(json!({"replay": r["failure"]["input"], "items": items.len()}));
+                    if items.len() == 1 && items[0].0.is_none() {
+                        if let Some(tok) = cmd_tok(&items[0].1) {
+                            run.single(caps.clone(), &caps_tok, &items[0].1, &tok);
+                        }
+                    }
+                    run.stream(caps, &caps_tok, &items);
+                }
+            }
+            None => run.out.sample(json!({"replay": "input of the replay file not understood", "file": r})),
+        }
+        run.out.finish(rule);
+        return;
     }
+
     for cmd in corner_cmds() {
-        one(&mut out, cmd);
+        if let Some(tok) = cmd_tok(&cmd) {
+            for (caps, caps_tok) in &all_caps {
+                run.single(caps.clone(), caps_tok, &cmd, &tok);
+            }
+        }
     }
+    for items in corner_streams() {
+        for (caps, caps_tok) in &all_caps {
+            run.stream(caps.clone(), caps_tok, &items);
+        }
+    }
+    let n = if cfg.thorough { 300_000 } else { 9_000 };
     for _ in 0..n {
         let cmd = rnd_cmd(&mut rng);
-        one(&mut out, cmd);
+        if let Some(tok) = cmd_tok(&cmd) {
+            for (caps, caps_tok) in &all_caps {
+                run.single(caps.clone(), caps_tok, &cmd, &tok);
+            }
+        }
     }
-    out.finish("white-box corner commands first, then random commands of every kind (extreme usize / i32 parameters, every DEC mode, every underline style x attribute combination, colours with channel values at cube/grey boundaries, printable scalar values from every UTF-8 length class, titles with non-ASCII text and `;`), each under 3 colour depths x kitty keyboard on/off; distinct by (caps, command text)");
+    let (ns, max_len) = if cfg.thorough { (12_000, 24) } else { (1_500, 12) };
+    for _ in 0..ns {
+        let items = rnd_stream(&mut rng, max_len);
+        for (caps, caps_tok) in &all_caps {
+            run.stream(caps.clone(), caps_tok, &items);
+        }
+    }
+    run.out.finish(rule);
 }
